@@ -63,11 +63,8 @@ func (f *UnionFile) Read(s []byte) (int, error) {
 
 func (f *UnionFile) ReadAt(s []byte, o int64) (int, error) {
 	if f.Layer != nil {
-		n, err := f.Layer.ReadAt(s, o)
-		if (err == nil || err == io.EOF) && f.Base != nil {
-			_, err = f.Base.Seek(o+int64(n), io.SeekStart)
-		}
-		return n, err
+		// a positional read moves no offset, neither in the layer nor in the base
+		return f.Layer.ReadAt(s, o)
 	}
 	if f.Base != nil {
 		return f.Base.ReadAt(s, o)
